@@ -308,6 +308,49 @@ Proof.
     rewrite E1. apply no_underflow_ge_small. rewrite Rabs_pos_eq; lra.
 Qed.
 
+(* ---------- Props/pending/C02_round.v.txt ---------- *)
+(* ======================================================================================================
+   C02 (determinant and inverse), rounding half -- package round.  Append to Props/C02.v.
+   The determinant "to rounding accuracy", in the STANDARD MODEL of floating-point arithmetic (the same Gallina
+   [determinant] of Model/Solve.v at ARm): the computed determinant is +- the exact product of the diagonal of the
+   COMPUTED factor, up to n roundings: relative error gam n = n u / (1 - n u), every size with n u < 1.
+   NOT covered: the factorisation (how far the computed factors are from exact factors of the input: growth factor of
+   Gaussian elimination with partial pivoting), the inverse (its two in-place triangular sweeps have the structure of
+   Props/C01.v's triangular solves, column by column, but are not stated), and the standard model itself for IEEE
+   binary64.
+   ====================================================================================================== *)
+From Coq Require Import Reals Lra Lia.
+From OV Require Import Base.RoundModel Proofs.Matrix Proofs.RoundMatvec Proofs.RoundDet Proofs.RoundFlx Proofs.RoundExamples.
+
+Theorem determinant_product_error : forall (u : R), (0 <= u < 1)%R ->
+  forall (fadd fsub fmul fdiv : R -> R -> R),
+  (forall x y : R, exists d : R, (Rabs d <= u)%R /\ fmul x y = (x * y * (1 + d))%R) ->
+  forall (m lu perm : Model.Matrix.matrix (ARm fadd fsub fmul fdiv)) (piv : nat) (d : R),
+  Proofs.Matrix.wf m -> (INR (Model.Matrix.rows m) * u < 1)%R ->
+  Model.Solve.lu_decomp m = Base.Panic.Ok (lu, piv, perm) -> Model.Solve.determinant m = Base.Panic.Ok d ->
+  exists th : R, (Rabs th <= gam u (Model.Matrix.rows m))%R /\
+    d = ((if Nat.even piv then 1 else -1) * Rprod (Model.Matrix.rows m) (fun i => rentry fadd fsub fmul fdiv lu i i) * (1 + th))%R.
+Proof. intros u Hu fadd fsub fmul fdiv Hm m lu perm piv d. exact (determinant_product_error_lemma u Hu fadd fsub fmul fdiv Hm m lu perm piv d). Qed.
+Check determinant_product_error : forall (u : R), (0 <= u < 1)%R ->
+  forall (fadd fsub fmul fdiv : R -> R -> R),
+  (forall x y : R, exists d : R, (Rabs d <= u)%R /\ fmul x y = (x * y * (1 + d))%R) ->
+  forall (m lu perm : Model.Matrix.matrix (ARm fadd fsub fmul fdiv)) (piv : nat) (d : R),
+  Proofs.Matrix.wf m -> (INR (Model.Matrix.rows m) * u < 1)%R ->
+  Model.Solve.lu_decomp m = Base.Panic.Ok (lu, piv, perm) -> Model.Solve.determinant m = Base.Panic.Ok d ->
+  exists th : R, (Rabs th <= gam u (Model.Matrix.rows m))%R /\
+    d = ((if Nat.even piv then 1 else -1) * Rprod (Model.Matrix.rows m) (fun i => rentry fadd fsub fmul fdiv lu i i) * (1 + th))%R.
+Print Assumptions determinant_product_error.
+(* [[2,1],[0,3]] in the arithmetic that rounds every operation to 53 bits: lu_decomp returns ex_lu2, determinant answers *)
+Example determinant_product_error_nonvacuous :
+  (0 <= ux < 1)%R /\
+  (forall x y : R, exists d : R, (Rabs d <= ux)%R /\ xmul x y = (x * y * (1 + d))%R) /\
+  Proofs.Matrix.wf ex_m2 /\ (INR (Model.Matrix.rows ex_m2) * ux < 1)%R /\
+  Model.Solve.lu_decomp ex_m2 = Base.Panic.Ok (ex_lu2, 0%nat, ex_id2) /\ exists d, Model.Solve.determinant ex_m2 = Base.Panic.Ok d.
+Proof.
+  split; [exact ux_range|]. split; [exact xmul_ok|]. split; [reflexivity|]. split; [exact ex_size2|].
+  split; [exact ex_lu_decomp|exact ex_determinant].
+Qed.
+
 (* ---------- Props/pending/C03_round.v.txt ---------- *)
 (* ======================================================================================================
    C03 (dense matrix algebra), rounding half -- package round.  Append to Props/C03.v.
